@@ -7,9 +7,11 @@ import (
 	"fmt"
 	"hash/crc32"
 	"io"
+	mrand "math/rand"
 	"os"
 	"path/filepath"
 	"strings"
+	"sync"
 	"syscall"
 	"time"
 
@@ -20,6 +22,10 @@ import (
 // streamEval decodes one byte string with the real decoder, the Lean Impl model and the Lean Spec.
 // prop = "C07": report the inverse-on-well-formed-data oracle; prop = "C08": report the strictness oracle.
 func streamEval(c *Ctx, cs Case, prop string) {
+	if cs.S("op") == "concurrent" {
+		concurrentEval(c, cs, prop)
+		return
+	}
 	if cs.S("fault") != "" {
 		// a failing case is reduced to the bytes the reader delivered (what lies behind the failure never reaches the decoder)
 		n0 := c.NFailures()
@@ -74,6 +80,9 @@ func streamEval(c *Ctx, cs Case, prop string) {
 	}
 	c.Count(cs.Key(), len(b) > 0, prop+"/"+cls+"/"+strings.SplitN(goObs, " ", 2)[0])
 	c.Class("reader=" + src.kind)
+	if !panicked {
+		entryPointsAgree(c, cs, b, db, err, reenc)
+	}
 	if len(b) < 200 {
 		c.Sample(cs)
 	}
@@ -178,6 +187,325 @@ func streamEval(c *Ctx, cs Case, prop string) {
 	}
 }
 
+// ---- the other names of "decoding" and "encoding" ----
+//
+// The property speaks of decoding and encoding a database; the library offers both under several names,
+// and ReadSignatureDatabase / Bytes() are only two of them. On every evaluated stream the others have
+// to say the same: Unmarshal into a receiver that held something else (success exactly when
+// ReadSignatureDatabase succeeds, the same lists, the whole buffer consumed), ReadSignatureList on the
+// first list (the same list, exactly ListSize bytes consumed), Marshal into a buffer that is empty and
+// into one that already holds content (what was there stays, the encoding is appended),
+// WriteSignatureDatabase into a plain io.Writer, and the concatenation of the lists' own Bytes().
+// The oracles of streamEval on (db, err, reenc) thereby hold for these entry points too.
+
+type plainWriter struct{ b []byte }
+
+func (w *plainWriter) Write(p []byte) (int, error) { w.b = append(w.b, p...); return len(p), nil }
+
+func entryPointsAgree(c *Ctx, cs Case, b []byte, db signature.SignatureDatabase, err error, reenc []byte) {
+	fail := func(what, goObs, want string) {
+		c.Fail(Failure{Kind: "property", What: what, Case: cs, Go: clip(goObs), Spec: clip(want)})
+	}
+	// Unmarshal
+	prev := signature.NewSignatureList(signature.CERT_SHA256_GUID)
+	prev.AppendBytes(util.EFIGUID{Data1: 0x22222222}, bytes.Repeat([]byte{0x22}, 32))
+	recv := signature.SignatureDatabase{prev}
+	buf := bytes.NewBuffer(append([]byte{}, b...))
+	var uerr error
+	if p, msg := safely(func() { uerr = recv.Unmarshal(buf) }); p {
+		fail("SignatureDatabase.Unmarshal panicked: "+msg, "panic", "return")
+		return
+	}
+	want := "err"
+	if err == nil {
+		want = "ok " + goDbStr(db)
+	}
+	switch {
+	case (uerr == nil) != (err == nil):
+		fail("SignatureDatabase.Unmarshal and ReadSignatureDatabase disagree on whether the input decodes", errClass(uerr), want)
+	case uerr == nil && goDbStr(recv) != goDbStr(db):
+		fail("SignatureDatabase.Unmarshal yields other lists than ReadSignatureDatabase on the same input", "ok "+goDbStr(recv), want)
+	case uerr == nil && buf.Len() != 0:
+		fail(fmt.Sprintf("SignatureDatabase.Unmarshal succeeded and left %d bytes of the input unread", buf.Len()), "ok", "whole input consumed")
+	}
+	if err != nil {
+		return
+	}
+	// the single-list decoder on the first list
+	if len(db) > 0 && len(b) >= 28 {
+		br := bytes.NewReader(append([]byte{}, b...))
+		var l *signature.SignatureList
+		var lerr error
+		if p, msg := safely(func() { l, lerr = signature.ReadSignatureList(br) }); p {
+			fail("ReadSignatureList panicked: "+msg, "panic", "return")
+		} else if ls := int(binary.LittleEndian.Uint32(b[16:])); lerr != nil || l == nil || goListStr(l) != goListStr(db[0]) || len(b)-br.Len() != ls {
+			got := errClass(lerr)
+			if lerr == nil && l != nil {
+				got = fmt.Sprintf("ok %s consumed=%d", goListStr(l), len(b)-br.Len())
+			}
+			fail("ReadSignatureList on a stream that ReadSignatureDatabase decodes does not return the first list, consuming exactly its ListSize bytes", got, fmt.Sprintf("ok %s consumed=%d", goListStr(db[0]), ls))
+		}
+	} else if len(b) == 0 {
+		var lerr error
+		safely(func() { _, lerr = signature.ReadSignatureList(bytes.NewReader(nil)) })
+		if lerr != io.EOF && !errors.Is(lerr, io.EOF) {
+			fail("ReadSignatureList on the empty input does not answer io.EOF (no more lists)", fmt.Sprint(lerr), "io.EOF")
+		}
+	}
+	// the encoders
+	pre := []byte{0x07, 0x00, 0x00, 0x00} // e.g. the attribute word of an efivarfs file written first
+	pre = append(pre, b[:len(b)%23]...)
+	var m0, m1 bytes.Buffer
+	m1.Write(pre)
+	pw := &plainWriter{}
+	var cat []byte
+	if p, msg := safely(func() {
+		db.Marshal(&m0)
+		db.Marshal(&m1)
+		signature.WriteSignatureDatabase(pw, db)
+		for _, l := range db {
+			cat = append(cat, l.Bytes()...)
+		}
+	}); p {
+		fail("an encoder entry point panicked: "+msg, "panic", "return")
+		return
+	}
+	if !bytes.Equal(m0.Bytes(), reenc) {
+		fail("SignatureDatabase.Marshal into an empty buffer differs from Bytes()", hx(m0.Bytes()), hx(reenc))
+	}
+	if !bytes.Equal(m1.Bytes(), append(append([]byte{}, pre...), reenc...)) {
+		fail(fmt.Sprintf("SignatureDatabase.Marshal into a buffer that already holds %d bytes: the result is not these bytes followed by the encoding", len(pre)), hx(m1.Bytes()), hx(pre)+" || "+hx(reenc))
+	}
+	if !bytes.Equal(pw.b, reenc) {
+		fail("WriteSignatureDatabase into a plain io.Writer differs from Bytes()", hx(pw.b), hx(reenc))
+	}
+	if !bytes.Equal(cat, reenc) {
+		fail("the concatenation of SignatureList.Bytes() of the lists differs from SignatureDatabase.Bytes()", hx(cat), hx(reenc))
+	}
+}
+
+// ---- several decoders at the same time ----
+//
+// "Decoding yields exactly the lists ... the stream holds" is a statement about one stream and one
+// call; nothing in it depends on what else the process is doing. A program reads db and dbx (or the
+// variables of several machines) on different goroutines, so k streams are decoded at the same time and
+// every call must return what the same call returns alone. The interleaving is not left to the
+// scheduler: every stream reaches its decoder through a reader that hands control to another decoder
+// inside its Read (before it touches the destination, or after the bytes are in place but before Read
+// returns), following a switch plan that is part of the case - exactly one goroutine runs at any time,
+// so every run is deterministic and replayable.
+
+type lockstep struct {
+	mu    sync.Mutex
+	cond  *sync.Cond
+	cur   int
+	alive []bool
+	plan  []byte // plan[step % len] != 0: hand over to the next live decoder at this point
+	step  int
+}
+
+func newLockstep(n int, plan []byte) *lockstep {
+	s := &lockstep{alive: make([]bool, n), plan: plan}
+	for i := range s.alive {
+		s.alive[i] = true
+	}
+	s.cond = sync.NewCond(&s.mu)
+	return s
+}
+
+func (s *lockstep) nextAlive(me int) int {
+	for d := 1; d <= len(s.alive); d++ {
+		if j := (me + d) % len(s.alive); s.alive[j] {
+			return j
+		}
+	}
+	return -1
+}
+
+func (s *lockstep) enter(me int) {
+	s.mu.Lock()
+	for s.cur != me {
+		s.cond.Wait()
+	}
+	s.mu.Unlock()
+}
+
+func (s *lockstep) yield(me int) {
+	s.mu.Lock()
+	defer s.mu.Unlock()
+	sw := len(s.plan) == 0 || s.plan[s.step%len(s.plan)] != 0
+	s.step++
+	if !sw {
+		return
+	}
+	if j := s.nextAlive(me); j >= 0 && j != me {
+		s.cur = j
+		s.cond.Broadcast()
+		for s.cur != me {
+			s.cond.Wait()
+		}
+	}
+}
+
+func (s *lockstep) leave(me int) {
+	s.mu.Lock()
+	s.alive[me] = false
+	if s.cur == me {
+		s.cur = s.nextAlive(me)
+	}
+	s.cond.Broadcast()
+	s.mu.Unlock()
+}
+
+// parkReader delivers data (at most chunk bytes per call when chunk > 0) and parks inside every Read
+type parkReader struct {
+	data  []byte
+	pos   int
+	chunk int
+	after bool
+	s     *lockstep
+	me    int
+}
+
+func (r *parkReader) Read(p []byte) (int, error) {
+	if len(p) == 0 {
+		return 0, nil
+	}
+	if !r.after {
+		r.s.yield(r.me)
+	}
+	if r.pos >= len(r.data) {
+		if r.after {
+			r.s.yield(r.me)
+		}
+		return 0, io.EOF
+	}
+	if r.chunk > 0 && len(p) > r.chunk {
+		p = p[:r.chunk]
+	}
+	n := copy(p, r.data[r.pos:])
+	r.pos += n
+	if r.after {
+		r.s.yield(r.me) // the bytes are in the caller's buffer, Read has not returned yet
+	}
+	return n, nil
+}
+
+func decodeObs(db signature.SignatureDatabase, err error, panicked bool) string {
+	switch {
+	case panicked:
+		return "panic"
+	case err != nil:
+		return "err"
+	}
+	return "ok " + goDbStr(db) + " reenc=" + hx(db.Bytes())
+}
+
+func concurrentEval(c *Ctx, cs Case, prop string) {
+	var streams [][]byte
+	for _, h := range strList(cs["streams"]) {
+		streams = append(streams, unhx(h))
+	}
+	if len(streams) < 2 || len(streams) > 8 {
+		return
+	}
+	plan := unhx(cs.S("plan"))
+	after := cs.S("park") == "after"
+	chunk := int(cs.I("chunk"))
+	// each call alone, through the same kind of reader
+	alone := make([]string, len(streams))
+	for i, b := range streams {
+		s := newLockstep(1, plan)
+		var db signature.SignatureDatabase
+		var err error
+		p, _ := safely(func() {
+			db, err = signature.ReadSignatureDatabase(&parkReader{data: append([]byte{}, b...), chunk: chunk, after: after, s: s, me: 0})
+		})
+		alone[i] = decodeObs(db, err, p)
+	}
+	// all of them at the same time
+	s := newLockstep(len(streams), plan)
+	together := make([]string, len(streams))
+	var wg sync.WaitGroup
+	for i := range streams {
+		wg.Add(1)
+		go func(i int) {
+			defer wg.Done()
+			var db signature.SignatureDatabase
+			var err error
+			s.enter(i)
+			p, _ := safely(func() {
+				db, err = signature.ReadSignatureDatabase(&parkReader{data: append([]byte{}, streams[i]...), chunk: chunk, after: after, s: s, me: i})
+			})
+			together[i] = decodeObs(db, err, p) // still this goroutine's turn: nothing else runs
+			s.leave(i)
+		}(i)
+	}
+	done := make(chan struct{})
+	go func() { wg.Wait(); close(done) }()
+	select {
+	case <-done:
+	case <-time.After(60 * time.Second):
+		c.Fail(Failure{Kind: "property", What: "concurrent decoders did not return within 60 s", Case: cs})
+		return
+	}
+	obs := "same"
+	for i := range streams {
+		if together[i] != alone[i] {
+			obs = "differs"
+		}
+	}
+	c.Count(cs.Key(), true, fmt.Sprintf("%s/concurrent/%d-decoders/park-%s/%s", prop, len(streams), cs.S("park"), obs))
+	for i := range streams {
+		if together[i] != alone[i] {
+			c.Fail(Failure{Kind: "property", What: fmt.Sprintf("decoder %d of %d running at the same time returns something else than the same call alone: decoding a stream depends on what other decoders in the process are doing", i, len(streams)),
+				Case: cs, Go: clip(together[i]), Spec: clip(alone[i])})
+			return
+		}
+	}
+}
+
+// concurrentCases: groups of 2..3 streams (same shape with other owners and data, or unrelated) x switch plans
+func concurrentCases(c *Ctx, prop string, n int) {
+	rng := mrand.New(mrand.NewSource(c.Seed*104729 + 7 + int64(c.Shard)*1000003)) // a generator of its own: the other cases stay what they were
+	sub := &Ctx{Rng: rng, Thorough: c.Thorough}
+	plans := []string{"01", "0001", "0100", "000001", "01010001"} // one byte per parking point: != 0 hands over
+	for i := 0; i < n && c.NFailures() < 8; i++ {
+		k := 2 + i%2*(i/2%2)
+		var ss []string
+		ls, b := genStream(sub, true, 3)
+		for len(b) == 0 || len(b) > 6000 {
+			ls, b = genStream(sub, true, 3)
+		}
+		ss = append(ss, hx(b))
+		for len(ss) < k {
+			if i%3 != 2 {
+				// the same layout with other owners and data: the decoders are at the same point of their streams
+				var o []byte
+				for _, l := range ls {
+					m := genList{typ: l.typ, hdr: l.hdr, size: l.size}
+					for range l.sigs {
+						m.sigs = append(m.sigs, [2][]byte{randBytes(sub, 16), randBytes(sub, l.size-16)})
+					}
+					o = append(o, m.enc()...)
+				}
+				ss = append(ss, hx(o))
+			} else {
+				_, o := genStream(sub, true, 3)
+				for len(o) == 0 || len(o) > 6000 {
+					_, o = genStream(sub, true, 3)
+				}
+				ss = append(ss, hx(o))
+			}
+		}
+		plan := plans[i%len(plans)]
+		if i%7 == 6 {
+			plan = hx(randBytes(sub, 8))
+		}
+		streamEval(c, Case{"op": "concurrent", "streams": ss, "plan": plan, "park": []string{"after", "before"}[i/2%2], "chunk": int64([]int{0, 0, 1, 5}[i/4%4])}, prop)
+	}
+}
+
 // ---- sources that fail ----
 //
 // The inputs of the property reach the decoder through an io.Reader, and a reader has a third way to
@@ -264,10 +592,16 @@ func faultEval(c *Ctx, cs Case, prop string) {
 	switch {
 	case panicked:
 		fail("decoder panicked: "+pmsg, "panic")
+	case err == nil && prop == "C07" && at == len(b) && bytes.Equal(db.Bytes(), b):
+		// C07 asks for exactly the lists of the stream: all of them were delivered and decoded (whether the
+		// failure behind them has to be reported is C08's question)
 	case err == nil:
 		fail(fmt.Sprintf("ReadSignatureDatabase returned a database of %d list(s) and no error although its reader failed: a read failure was taken for the end of the database", len(db)), "ok "+goDbStr(db))
 	case r.hit && errors.Is(err, io.EOF):
 		fail("ReadSignatureDatabase reports a failed read as an error matching io.EOF (the end-of-input signal)", "err "+err.Error())
+	}
+	if prop == "C07" {
+		return // the single-list entry point's end-of-input answer is part of C08
 	}
 	// the single-list entry point: io.EOF is its "no more lists" answer and must not be given for a failed read
 	r = mk()
@@ -324,6 +658,28 @@ func faultCases(c *Ctx, b []byte, salt int, emit func(Case)) {
 		if !isB[at] {
 			emit(Case{"op": "stream", "class": "read-fault/inside", "bytes": hx(b), "fault": faultKinds[(at+salt)%len(faultKinds)],
 				"faultmode": faultModes[(at/len(faultKinds)+salt)%len(faultModes)], "faultat": int64(at)})
+		}
+	}
+}
+
+// faultCasesAtBoundaries is the C07 selection: a well-formed stream reaches the decoder through a reader that
+// fails (all kinds, both delivery modes) before the first byte, between two lists and behind the last one -
+// the positions at which the stream read so far is itself well-formed - plus a few positions inside lists
+func faultCasesAtBoundaries(c *Ctx, b []byte, salt int, emit func(Case)) {
+	bs := listBoundaries(b)
+	for _, o := range bs {
+		for _, k := range faultKinds {
+			for _, m := range faultModes {
+				emit(Case{"op": "stream", "class": "read-fault/boundary", "bytes": hx(b), "fault": k, "faultmode": m, "faultat": int64(o)})
+			}
+		}
+	}
+	for i := 0; i+1 < len(bs); i++ {
+		for j, d := range []int{1, 16, 27, 28, 29, 44, bs[i+1] - bs[i] - 1} {
+			if at := bs[i] + d; at > bs[i] && at < bs[i+1] {
+				emit(Case{"op": "stream", "class": "read-fault/inside", "bytes": hx(b), "fault": faultKinds[(i+j+salt)%len(faultKinds)],
+					"faultmode": faultModes[(j+salt)%len(faultModes)], "faultat": int64(at)})
+			}
 		}
 	}
 }
@@ -411,6 +767,68 @@ func genStream(c *Ctx, handledOnly bool, maxLists int) ([]genList, []byte) {
 	return ls, b
 }
 
+// genEntryClassList: well-formed lists of handled types whose ENTRIES are of the classes random bytes never
+// produce - the statement quantifies over "any owners", any signature data and any count:
+//
+//	repeat    - one owner+data entry occurs two or more times in the list (next to each other, or apart)
+//	same-data - the same data under different owners, and the same owner with different data
+//	pem       - X.509 lists whose entry bytes are PEM text (of one size), alone or repeated
+//	zero      - all-zero owner and data
+func genEntryClassList(c *Ctx, kind string) genList {
+	var l genList
+	fresh := func() [2][]byte { return [2][]byte{randBytes(c, 16), randBytes(c, l.size-16)} }
+	switch c.Rng.Intn(3) {
+	case 0:
+		l.typ, l.size = tSHA256, 48
+	case 1:
+		l.typ, l.size = tX509, 16+[]int{1, 17, 100, 300}[c.Rng.Intn(4)]
+	default:
+		l.typ, l.size = tEXT, 17
+	}
+	if kind == "pem" {
+		n := 1 + c.Rng.Intn(60)
+		l.typ, l.size = tX509, 16+len(pemOf(make([]byte, n)))
+		fresh = func() [2][]byte { return [2][]byte{randBytes(c, 16), pemOf(randBytes(c, n))} }
+	}
+	n := 2 + c.Rng.Intn(4)
+	for i := 0; i < n; i++ {
+		l.sigs = append(l.sigs, fresh())
+	}
+	switch kind {
+	case "repeat", "pem":
+		if kind == "pem" && c.Rng.Intn(2) == 0 {
+			break
+		}
+		for k := 1 + c.Rng.Intn(2); k > 0; k-- {
+			src, at := c.Rng.Intn(len(l.sigs)), c.Rng.Intn(len(l.sigs)+1)
+			e := l.sigs[src]
+			l.sigs = append(l.sigs[:at], append([][2][]byte{e}, l.sigs[at:]...)...)
+		}
+	case "same-data":
+		l.sigs[1][1] = l.sigs[0][1]
+		l.sigs[len(l.sigs)-1][0] = l.sigs[0][0]
+	case "zero":
+		l.sigs[c.Rng.Intn(len(l.sigs))] = [2][]byte{make([]byte, 16), make([]byte, l.size-16)}
+	}
+	return l
+}
+
+var entryClasses = []string{"repeat", "pem", "same-data", "zero"}
+
+// genEntryClassStream puts such a list among 0..2 ordinary well-formed lists
+func genEntryClassStream(c *Ctx, kind string) []byte {
+	var b []byte
+	at, n := c.Rng.Intn(3), 1+c.Rng.Intn(3)
+	for i := 0; i < n; i++ {
+		if i == at%n {
+			b = append(b, genEntryClassList(c, kind).enc()...)
+		} else {
+			b = append(b, genWFList(c, true).enc()...)
+		}
+	}
+	return b
+}
+
 func fixtureStreams(c *Ctx) [][]byte {
 	var out [][]byte
 	// captured variables (4-byte attribute prefix) and .esl files shipped with the repository
@@ -463,6 +881,29 @@ func c07Gen(c *Ctx) {
 		if c.NFailures() >= 8 {
 			return
 		}
+	}
+	// generators of their own from here to the histories, so that the cases before and behind stay what they were
+	sub := &Ctx{Rng: mrand.New(mrand.NewSource(c.Seed*15485863 + 3 + int64(c.Shard)*1000003)), Thorough: c.Thorough}
+	// entries of the classes random bytes never produce: repeated entries, PEM-shaped certificate bytes, ...
+	for i := 0; i < c.N(240, 8000) && c.NFailures() < 8; i++ {
+		kind := entryClasses[i%len(entryClasses)]
+		streamEval(c, Case{"op": "stream", "class": "wf/entries-" + kind, "bytes": hx(genEntryClassStream(sub, kind))}, "C07")
+	}
+	// well-formed streams through a reader that fails instead of ending: before the first byte, between
+	// two lists, behind the last one (every failure kind, both delivery modes) and at a few positions inside
+	for i, b := range fx {
+		if len(b) < c.P(20000, 200000) && c.Mine(i) {
+			faultCasesAtBoundaries(c, b, i, func(cs Case) { streamEval(c, cs, "C07") })
+		}
+	}
+	for i := 0; i < c.N(60, 3000) && c.NFailures() < 8; i++ {
+		_, b := genStream(sub, true, c.P(4, 8))
+		faultCasesAtBoundaries(c, b, i, func(cs Case) { streamEval(c, cs, "C07") })
+	}
+	// several streams decoded at the same time, each through a reader that parks inside Read
+	concurrentCases(c, "C07", c.N(120, 4000))
+	if c.NFailures() >= 8 {
+		return
 	}
 	// databases built through the library's own operations
 	u := newC09Universe(c)
@@ -585,16 +1026,58 @@ func c08Gen(c *Ctx) {
 		m[c.Rng.Intn(len(m))] ^= byte(1 << uint(c.Rng.Intn(8)))
 		emit("bitflip", m)
 	}
+	// generators of their own, so that the cases above stay what they were
+	sub := &Ctx{Rng: mrand.New(mrand.NewSource(c.Seed*15485863 + 5 + int64(c.Shard)*1000003)), Thorough: c.Thorough}
+	// lists WITHOUT entries (ListSize = 28 + HeaderSize): the size equation holds for every SignatureSize, so
+	// only the explicit bounds of the statement (at least 16; exactly 48 for SHA-256) decide. Every type, every
+	// SignatureSize in 0..17 and around the fixed sizes, alone, in front of, behind and between well-formed lists.
+	for ti, typ := range [][]byte{tX509, tSHA256, tEXT, tSHA1, tUnknown} {
+		for _, hdr := range [][]byte{nil, {0xAB, 0xCD, 0xEF}} {
+			if hdr != nil && ti > 0 {
+				continue
+			}
+			for _, size := range []int{0, 1, 2, 3, 4, 5, 6, 7, 8, 9, 10, 11, 12, 13, 14, 15, 16, 17, 18, 27, 28, 47, 48, 49, 1 << 16, 1<<31 - 1, 1 << 31, 1<<32 - 1} {
+				if c.NFailures() >= 8 {
+					return
+				}
+				if !c.Mine(size) {
+					continue
+				}
+				e := encodeList(typ, hdr, size, nil)
+				w1, w2 := genWFList(sub, true).enc(), genWFList(sub, true).enc()
+				emit("no-entries/alone", e)
+				emit("no-entries/first", append(append([]byte{}, e...), w1...))
+				emit("no-entries/last", append(append([]byte{}, w1...), e...))
+				emit("no-entries/between", append(append(append([]byte{}, w1...), e...), w2...))
+				emit("no-entries/twice", append(append([]byte{}, e...), e...))
+			}
+		}
+	}
+	// entries of the classes random bytes never produce (one entry several times in a list, PEM-shaped
+	// certificate bytes, equal data under different owners, all-zero entries): accepted only as exactly the
+	// lists the layout defines - not as a shorter, de-duplicated or re-coded database - and every truncation
+	for i := 0; i < c.N(80, 4000) && c.NFailures() < 8; i++ {
+		kind := entryClasses[i%len(entryClasses)]
+		b := genEntryClassStream(sub, kind)
+		emit("wf/entries-"+kind, b)
+		stride := 1
+		if len(b) > c.P(200, 3000) {
+			stride = len(b)/c.P(24, 400) + 1
+		}
+		for cut := 1 + sub.Rng.Intn(stride); cut < len(b); cut += stride {
+			emit("truncated/entries-"+kind, b[:cut])
+		}
+	}
 }
 
 func init() {
 	register("C07", &PropDef{
-		Rule:   "well-formed streams: 0..6 (thorough 12) lists over X.509 (any certificate size, 0-5 entries), SHA-256 (up to 40 entries), externally-managed, plus valid-but-undecodable / unknown / headered lists in a quarter of the streams; the .esl files and captured variables of the repository; databases built by random append/remove/append-list histories and then encoded and decoded, two thirds of them starting with a list that holds one entry more than once (decoded [A,B,A] / [a,b,a,a], or built by SignatureList.AppendBytes from the DER and the PEM form of one certificate) or with PEM handed to the list-level API, followed by removals of that entry; and list-level appends to decoded lists that hold no entry but carry a signature size. Every stream is decoded through a bytes.Reader, a bytes.Buffer, a one-byte-at-a-time reader, a data-with-EOF reader or a half-count reader (chosen by a checksum of the input) over a private copy that is overwritten before the decoded database is inspected. Non-trivial: non-empty stream; distinct = distinct byte strings / histories.",
+		Rule:   "well-formed streams: 0..6 (thorough 12) lists over X.509 (any certificate size, 0-5 entries), SHA-256 (up to 40 entries), externally-managed, plus valid-but-undecodable / unknown / headered lists in a quarter of the streams; the .esl files and captured variables of the repository; databases built by random append/remove/append-list histories and then encoded and decoded, two thirds of them starting with a list that holds one entry more than once (decoded [A,B,A] / [a,b,a,a], or built by SignatureList.AppendBytes from the DER and the PEM form of one certificate) or with PEM handed to the list-level API, followed by removals of that entry; and list-level appends to decoded lists that hold no entry but carry a signature size. Every stream is decoded through a bytes.Reader, a bytes.Buffer, a one-byte-at-a-time reader, a data-with-EOF reader or a half-count reader (chosen by a checksum of the input) over a private copy that is overwritten before the decoded database is inspected. ENTRY CLASSES that random bytes never produce (240 streams, a list of the class among 0..2 ordinary ones): one owner+data entry two or more times in a list (adjacent or apart), X.509 entries whose bytes are PEM text (distinct or repeated), equal data under different owners / one owner with different data, all-zero entries. READERS THAT FAIL: the fixtures and 60 generated well-formed streams are decoded through a reader that delivers the first k bytes and then fails with a non-EOF error (I/O error, closed file, deadline, closed pipe; the error arriving after or together with the last bytes) for k = 0, every boundary between two lists and the end of the stream (all kinds, both modes) and seven positions inside every list; oracle: a nil error only together with exactly the lists of the whole stream - a failure must not be taken for the end of the database. SEVERAL DECODERS AT THE SAME TIME (120 groups of 2 or 3 streams, two thirds of them of one layout with other owners and data): each stream is decoded on its own goroutine through a reader that parks inside Read - before it touches the destination, or after the bytes are in place but before Read returns - and hands control to the next decoder following a switch plan that is part of the case (every parking point, every 2nd / 3rd, mixed, random; full reads, 1- and 5-byte reads), so exactly one goroutine runs at a time and every run is deterministic; oracle: every call returns what the same call through the same reader returns alone. ENTRY POINTS: on every evaluated stream SignatureDatabase.Unmarshal (into a receiver that held another list; same verdict, same lists, whole buffer consumed), ReadSignatureList (the first list, exactly ListSize bytes consumed; io.EOF on empty input), Marshal into an empty buffer and into one that already holds content (that content stays, the encoding follows), WriteSignatureDatabase into a plain io.Writer and the concatenation of SignatureList.Bytes() must agree with ReadSignatureDatabase / Bytes(), so the oracles apply to them too. The histories use, for every third append / removal / query, the entry points AppendSignature / RemoveSignature / SigDataExists. Non-trivial: non-empty stream; distinct = distinct byte strings / histories / (streams, plan) groups.",
 		Assume: []string{"`handled` list types are X.509, SHA-256 (size 48) and externally-managed (size 17) with an empty header, as in the decoder's switch"},
 		Eval:   c07Eval, Gen: c07Gen,
 	})
 	register("C08", &PropDef{
-		Rule:   "near-grammar byte strings derived from generated well-formed streams of handled types: EVERY truncation point, sweeps of ListSize / HeaderSize / SignatureSize of the last list over {0,1,15,16,17,27,28,29,exact±1,+Size,2x,2^31,2^32-1,...}, trailing garbage / zeros of 1..40 bytes, a valid stream followed by the first 16/20/24/28 bytes of another list, unsupported types, single bit flips; plus the repository fixtures and cuts of them. Sources that FAIL instead of ending: every generated well-formed stream (and every fixture; positions sampled for streams above 800 bytes) is also handed to ReadSignatureDatabase and ReadSignatureList through a reader that delivers the first k bytes and then fails with a non-EOF error (I/O error, closed file, deadline exceeded, closed pipe; the error arriving after or together with the last bytes) for EVERY k in 0..len - all kinds and both modes at k = 0 and at every list boundary, where a clean end would be legitimate, the kind rotating elsewhere; oracle: the input did not end, so an error that does not match io.EOF is required and no database / list may be returned. Non-trivial: non-empty; distinct = distinct byte strings (x failure position, kind, mode).",
+		Rule:   "near-grammar byte strings derived from generated well-formed streams of handled types: EVERY truncation point, sweeps of ListSize / HeaderSize / SignatureSize of the last list over {0,1,15,16,17,27,28,29,exact±1,+Size,2x,2^31,2^32-1,...}, trailing garbage / zeros of 1..40 bytes, a valid stream followed by the first 16/20/24/28 bytes of another list, unsupported types, single bit flips; plus the repository fixtures and cuts of them. Sources that FAIL instead of ending: every generated well-formed stream (and every fixture; positions sampled for streams above 800 bytes) is also handed to ReadSignatureDatabase and ReadSignatureList through a reader that delivers the first k bytes and then fails with a non-EOF error (I/O error, closed file, deadline exceeded, closed pipe; the error arriving after or together with the last bytes) for EVERY k in 0..len - all kinds and both modes at k = 0 and at every list boundary, where a clean end would be legitimate, the kind rotating elsewhere; oracle: the input did not end, so an error that does not match io.EOF is required and no database / list may be returned. LISTS WITHOUT ENTRIES (ListSize = 28 + HeaderSize, where the size equation holds for any SignatureSize and only the explicit bounds decide): types X.509 (also with a 3-byte header), SHA-256, externally-managed, SHA-1, unknown x SignatureSize in 0..18, 27, 28, 47..49, 2^16, 2^31-1, 2^31, 2^32-1, each alone, twice, in front of, behind and between well-formed lists. ENTRY CLASSES random bytes never produce (80 streams + truncations of them): one entry several times in a list, PEM-shaped X.509 entry bytes, equal data under different owners, all-zero entries - accepted only as exactly the lists the layout defines, never as a shorter, de-duplicated or re-coded database. ENTRY POINTS: on every stream SignatureDatabase.Unmarshal (receiver that held another list) and ReadSignatureList on the first list must give the verdict / lists of ReadSignatureDatabase and consume the whole buffer / exactly ListSize bytes, and Marshal (empty destination and one holding content), WriteSignatureDatabase into a plain writer and the lists' own Bytes() must give the bytes of Bytes(). Non-trivial: non-empty; distinct = distinct byte strings (x failure position, kind, mode).",
 		Assume: []string{},
 		Eval:   c08Eval, Gen: c08Gen,
 	})
